@@ -3,44 +3,58 @@ import GnarkVerif.Proofs.Transcript
 C15 — Fiat–Shamir transcript obeys its sequential specification on every call history.
 
 Theorems about `GV.Transcript` (executable model of fiat-shamir/transcript.go; tie = correspondence K),
-for an arbitrary hash `H : Bytes → Bytes`, any list of challenge names and every finite history of
-Bind / ComputeChallenge calls. `specValue H cs i` is the sequential specification
-  challenge₀ = H(name₀ ‖ bindings₀),  challengeᵢ₊₁ = H(nameᵢ₊₁ ‖ challengeᵢ ‖ bindingsᵢ₊₁).
+for an arbitrary hash given on the SEQUENCE OF WRITES — `W : Bytes → Option Bytes` (how one `Write` call is
+absorbed, `none` = the hasher refuses it) and `H : Bytes → Bytes` (digest of the concatenation of the absorbed
+bytes) — any list of challenge names and every finite history of Bind / ComputeChallenge calls.
+`specValue W H cs i` is the sequential specification
+  challenge₀ = H(W name₀ ‖ W b₀,₁ ‖ … ),  challengeᵢ₊₁ = H(W nameᵢ₊₁ ‖ W challengeᵢ ‖ W bᵢ₊₁,₁ ‖ …),
+one `W` per bound value, in binding order (`none` when one of these writes is refused).  SHA-256 is the instance
+`W = some` (then this is H of the plain concatenation, `C15_stream_spec`); MiMC is `mimcW`/`mimcH` of
+Model/Transcript.lean, where a short write is left-padded to a block and a non-canonical / ragged one is refused.
 The model is by-value (slices are values), i.e. it *is* the "no aliasing" semantics of the property;
 that the Go code has this semantics under caller-side mutation of every slice handed in or out is
 what the correspondence run checks (it cannot be a theorem about a by-value model).
 -/
 namespace GV.Transcript
-variable (H : Bytes → Bytes)
+variable (W : Bytes → Option Bytes) (H : Bytes → Bytes)
 
-/-- refusals (unknown name, already computed, previous not computed) leave the transcript unchanged -/
-theorem C15_error_leaves_state (s : State) (op : Op) (e : Err) (h : (step H s op).2 = .err e) :
-    (step H s op).1 = s := by
-  cases op <;> simp only [step] at h ⊢ <;> (repeat' split at h) <;> simp_all
+/-- every call either leaves the transcript as it was or does not return an error -/
+theorem C15_unchanged_or_no_error (s : State) (op : Op) :
+    (step W H s op).1 = s ∨ ∀ e, (step W H s op).2 ≠ .err e := by
+  cases op <;> simp only [step] <;> (repeat' split) <;> simp
+
+/-- refusals (unknown name, already computed, previous not computed, a write refused by the hasher)
+leave the transcript unchanged -/
+theorem C15_error_leaves_state (s : State) (op : Op) (e : Err) (h : (step W H s op).2 = .err e) :
+    (step W H s op).1 = s := by
+  rcases C15_unchanged_or_no_error W H s op with h1 | h2
+  · exact h1
+  · exact absurd h (h2 e)
 
 /-- one step preserves the invariant -/
-theorem C15_inv_step (s : State) (op : Op) (hs : Inv H s) : Inv H (step H s op).1 := by
+theorem C15_inv_step (s : State) (op : Op) (hs : Inv W H s) : Inv W H (step W H s op).1 := by
   cases op with
-  | bind n v => exact inv_bind H s n v hs
-  | compute n => exact inv_compute H s n hs
+  | bind n v => exact inv_bind W H s n v hs
+  | compute n => exact inv_compute W H s n hs
 
 /-- every state reachable by any history from `NewTranscript(names…)` satisfies the invariant:
 computed challenges form a prefix, `previous` is the last of them, cached values are the specified hashes -/
-theorem C15_reachable_inv (names : List Bytes) (ops : List Op) : Inv H (run H (init names) ops).1 := by
-  suffices h : ∀ s, Inv H s → Inv H (run H s ops).1 from h _ (inv_init H names)
+theorem C15_reachable_inv (names : List Bytes) (ops : List Op) : Inv W H (run W H (init names) ops).1 := by
+  suffices h : ∀ s, Inv W H s → Inv W H (run W H s ops).1 from h _ (inv_init W H names)
   induction ops with
   | nil => intro s hs; simpa [run] using hs
   | cons op ops ih =>
     intro s hs
     simp only [run]
-    exact ih _ (C15_inv_step H s op hs)
+    exact ih _ (C15_inv_step W H s op hs)
 
 /-- whenever ComputeChallenge returns a value (fresh or cached) in a state satisfying the invariant,
-that value is the sequential specification of the challenge with this name -/
-theorem C15_compute_is_spec (s : State) (name v : Bytes) (hs : Inv H s)
-    (h : (step H s (.compute name)).2 = .val v) :
-    ∃ i, find s.chals name = some i ∧ v = specValue H (step H s (.compute name)).1.chals i := by
-  have hs' := inv_compute H s name hs
+that value is the sequential specification of the challenge with this name (in particular every write
+of its chain was accepted by the hasher) -/
+theorem C15_compute_is_spec (s : State) (name v : Bytes) (hs : Inv W H s)
+    (h : (step W H s (.compute name)).2 = .val v) :
+    ∃ i, find s.chals name = some i ∧ specValue W H (step W H s (.compute name)).1.chals i = some v := by
+  have hs' := inv_compute W H s name hs
   simp only [step] at h hs' ⊢
   split at h
   · simp at h
@@ -60,52 +74,48 @@ theorem C15_compute_is_spec (s : State) (name v : Bytes) (hs : Inv H s)
         simp only [hnone] at hs' ⊢
         split at h
         · simp at h
-        · rename_i hcond
-          simp only [hcond, if_false] at hs' ⊢
-          simp at h; subst h
-          have hilt : i < s.chals.length := (List.getElem?_eq_some_iff.mp hc).1
-          exact hs'.values i { c with value := some (H (preimage s.chals i c)) } _ (by simp [hilt]) rfl
+        · rename_i a hwn
+          simp only [hwn] at hs' ⊢
+          split at h
+          · simp at h
+          · rename_i hcond
+            simp only [hcond, if_false] at hs' ⊢
+            split at h
+            · simp at h
+            · rename_i bs hbs
+              simp only [hbs] at hs' ⊢
+              simp at h; subst h
+              have hilt : i < s.chals.length := (List.getElem?_eq_some_iff.mp hc).1
+              exact hs'.values i { c with value := some (H bs) } _ (by simp [hilt]) rfl
 
 /-- recomputing a challenge returns the same bytes and does not change the transcript -/
 theorem C15_recompute_same (s : State) (name v : Bytes)
-    (h : (step H s (.compute name)).2 = .val v) :
-    step H (step H s (.compute name)).1 (.compute name) = ((step H s (.compute name)).1, .val v) := by
-  simp only [step] at h ⊢
-  split at h
-  · simp at h
-  · rename_i i hf
-    split at h
-    · simp at h
-    · rename_i c hc
-      split at h
-      · rename_i w hw
-        simp at h; subst h
-        simp [hf, hc, hw]
-      · rename_i hnone
-        split at h
-        · simp at h
-        · rename_i hcond
-          simp at h; subst h
-          have hilt : i < s.chals.length := (List.getElem?_eq_some_iff.mp hc).1
-          have hf' : find (s.chals.set i { c with value := some (H (preimage s.chals i c)) }) name = some i := by
-            unfold find at hf ⊢
-            rw [List.findIdx?_eq_some_iff_getElem] at hf ⊢
-            obtain ⟨hlt, hp, hq⟩ := hf
-            refine ⟨by simpa using hlt, ?_, ?_⟩
-            · have : c = s.chals[i] := by
-                have := List.getElem?_eq_some_iff.mp hc; exact this.2.symm
-              simp [List.getElem_set]; subst this; simpa using hp
-            · intro j hj
-              have hne : i ≠ j := by omega
-              simp only [List.getElem_set, hne, if_false]
-              exact hq j hj
-          simp [hnone, hcond, hf', hilt]
+    (h : (step W H s (.compute name)).2 = .val v) :
+    step W H (step W H s (.compute name)).1 (.compute name) = ((step W H s (.compute name)).1, .val v) := by
+  obtain ⟨i, c, hf, hc, hcase⟩ := compute_val_cases W H s name v h
+  rcases hcase with ⟨_, hst⟩ | ⟨_, bs, _, hv, hst⟩
+  · rw [hst]; exact hst
+  · rw [hst, hv]
+    have hilt : i < s.chals.length := (List.getElem?_eq_some_iff.mp hc).1
+    have hf' : find (s.chals.set i { c with value := some (H bs) }) name = some i := by
+      unfold find at hf ⊢
+      rw [List.findIdx?_eq_some_iff_getElem] at hf ⊢
+      obtain ⟨hlt, hp, hq⟩ := hf
+      refine ⟨by simpa using hlt, ?_, ?_⟩
+      · have : c = s.chals[i] := by
+          have := List.getElem?_eq_some_iff.mp hc; exact this.2.symm
+        simp; subst this; simpa using hp
+      · intro j hj
+        have hne : i ≠ j := by omega
+        simp only [List.getElem_set, hne, if_false]
+        exact hq j hj
+    simp [step, hf', hilt]
 
 /-- a successful Bind appends exactly the bound value to exactly the named challenge, and is only
 possible while that challenge is not computed (so the bindings of a computed challenge are frozen) -/
-theorem C15_bind_ok (s : State) (name v : Bytes) (h : (step H s (.bind name v)).2 = .ok) :
+theorem C15_bind_ok (s : State) (name v : Bytes) (h : (step W H s (.bind name v)).2 = .ok) :
     ∃ i c, find s.chals name = some i ∧ s.chals[i]? = some c ∧ c.value = none ∧
-      (step H s (.bind name v)).1 = { s with chals := s.chals.set i { c with bindings := c.bindings ++ [v] } } := by
+      (step W H s (.bind name v)).1 = { s with chals := s.chals.set i { c with bindings := c.bindings ++ [v] } } := by
   simp only [step] at h ⊢
   split at h
   · simp at h
@@ -117,12 +127,99 @@ theorem C15_bind_ok (s : State) (name v : Bytes) (h : (step H s (.bind name v)).
       · simp at h
       · rename_i hn
         refine ⟨i, c, hf, hc, by simpa using hn, ?_⟩
-        simp [hf, hc, hn]
+        simp [hn]
+
+/-- a compute of a not yet computed challenge whose turn it is (first, or predecessor computed last) and whose
+sequence of writes — name, previous value, bound values — contains one the hasher refuses, returns the
+hash error and leaves the transcript unchanged -/
+theorem C15_refused_write (s : State) (name : Bytes) (i : Nat) (c : Chal) (w : Bytes)
+    (hf : find s.chals name = some i) (hc : s.chals[i]? = some c) (hv : c.value = none)
+    (hturn : i = 0 ∨ s.prev = some (i-1))
+    (hw : w ∈ writes s.chals i c) (href : W w = none) :
+    step W H s (.compute name) = (s, .err .hash) := by
+  have hab : absorb W (writes s.chals i c) = none := (absorb_none_iff W _).mpr ⟨w, hw, href⟩
+  have hcond : ¬ (i ≠ 0 ∧ s.prev ≠ some (i-1)) := by
+    rcases hturn with h0 | hp
+    · simp [h0]
+    · simp [hp]
+  simp only [step, hf, hc, hv]
+  split
+  · rfl
+  · simp [hcond, hab]
+
+/-- a refused name is reported even when it is not the challenge's turn (the Go code writes the name before it
+checks the predecessor) -/
+theorem C15_refused_name (s : State) (name : Bytes) (i : Nat) (c : Chal)
+    (hf : find s.chals name = some i) (hc : s.chals[i]? = some c) (hv : c.value = none)
+    (href : W c.name = none) :
+    step W H s (.compute name) = (s, .err .hash) := by
+  simp [step, hf, hc, hv, href]
+
+/-- conversely the hash error is only ever returned for a not yet computed challenge whose sequence of
+writes contains a refused one; the transcript is unchanged -/
+theorem C15_hash_error_only_if_refused (s : State) (name : Bytes)
+    (h : (step W H s (.compute name)).2 = .err .hash) :
+    (step W H s (.compute name)).1 = s ∧
+    ∃ i c w, find s.chals name = some i ∧ s.chals[i]? = some c ∧ c.value = none ∧
+      w ∈ writes s.chals i c ∧ W w = none := by
+  refine ⟨C15_error_leaves_state W H s _ _ h, ?_⟩
+  simp only [step] at h
+  split at h
+  · simp at h
+  · rename_i i hf
+    split at h
+    · simp at h
+    · rename_i c hc
+      split at h
+      · simp at h
+      · rename_i hnone
+        split at h
+        · rename_i hwn
+          exact ⟨i, c, c.name, hf, hc, hnone, by simp [writes], hwn⟩
+        · split at h
+          · simp at h
+          · split at h
+            · rename_i hab
+              obtain ⟨w, hw, hr⟩ := (absorb_none_iff W _).mp hab
+              exact ⟨i, c, w, hf, hc, hnone, hw, hr⟩
+            · simp at h
+
+/-- for a stream hash (`Write` never fails and absorbs its argument, e.g. SHA-256) the specification is the
+hash of the plain concatenation name ‖ previous ‖ bindings… -/
+theorem C15_stream_spec (cs : List Chal) (i : Nat) (c : Chal) (hc : cs[i]? = some c) :
+    specValue some H cs i = match i with
+      | 0 => some (H (c.name ++ c.bindings.flatten))
+      | j+1 => (specValue some H cs j).map (fun p => H (c.name ++ p ++ c.bindings.flatten)) := by
+  cases i with
+  | zero => simp [specValue, hc, absorb_some]
+  | succ j =>
+    simp only [specValue, hc]
+    cases specValue some H cs j <;> simp [absorb_some]
+
+/-- a stream hash never produces the hash error -/
+theorem C15_stream_no_hash_error (s : State) (op : Op) : (step some H s op).2 ≠ .err .hash := by
+  intro h
+  cases op with
+  | bind n v => simp only [step] at h; (repeat' split at h) <;> simp_all
+  | compute n =>
+    obtain ⟨_, _, _, w, _, _, _, _, hr⟩ := C15_hash_error_only_if_refused some H s n h
+    simp at hr
 
 /-! non-vacuity: a concrete history reaches a state where two challenges are computed and chained -/
 example :
     let H : Bytes → Bytes := fun b => [UInt8.ofNat b.length]
-    let r := run H (init [[1], [2]]) [.bind [1] [9, 9], .compute [2], .compute [1], .bind [1] [7], .compute [2], .compute [1]]
+    let r := run some H (init [[1], [2]]) [.bind [1] [9, 9], .compute [2], .compute [1], .bind [1] [7], .compute [2], .compute [1]]
     r.2 = [.ok, .err .prevNotComputed, .val [3], .err .alreadyComputed, .val [2], .val [3]] := by decide
+
+/-! non-vacuity for a hasher that is NOT a byte stream (a toy MiMC: block = 2 bytes, a 1-byte write is
+left-padded, any other odd length is refused): two bound values `[5]`, `[6]` are absorbed as `0 5 0 6`, not as
+the single write `[5, 6]`; a 3-byte bound value makes the compute fail and the transcript stays as it was,
+also blocking the next challenge -/
+example :
+    let W : Bytes → Option Bytes := fun b => if b.length = 1 then some (0 :: b) else if b.length % 2 = 0 then some b else none
+    let H : Bytes → Bytes := fun b => b
+    let r := run W H (init [[1], [2]]) [.bind [1] [5], .bind [1] [6], .compute [1], .bind [2] [1, 2, 3], .compute [2], .compute [2]]
+    r.2 = [.ok, .ok, .val [0, 1, 0, 5, 0, 6], .ok, .err .hash, .err .hash] ∧
+    r.1 = (run W H (init [[1], [2]]) [.bind [1] [5], .bind [1] [6], .compute [1], .bind [2] [1, 2, 3]]).1 := by decide
 
 end GV.Transcript
